@@ -13,6 +13,7 @@ package harness
 import (
 	"bytes"
 	"fmt"
+	"math/big"
 	"strings"
 	"testing"
 
@@ -540,6 +541,44 @@ func c05TableCase(t *rapid.T, ev *evProp, gi *GroupInfo) {
 		}
 		if got := mustMarshal(t, k); !bytes.Equal(got, ek) {
 			violationOrKnown(t, ev, key, "%s %s: scalar operand changed from %x to %x", gi.Name, op.name, ek, got)
+		}
+	}
+	// Mul with a scalar operand that was DECODED from an accepted non-canonical encoding (Ed25519
+	// accepts unreduced 32-byte strings): the operand is read only - it stays Equal to a twin decoded
+	// from the same bytes (an implementation that normalises its operand in place changes it without
+	// changing its canonical encoding).  The PRODUCT is not asserted: arithmetic on unreduced Ed25519
+	// scalars is wrong on the pinned tree (DESIGN 6.3, outside every listed property).
+	if len(ek) == 32 && gi.Order != nil {
+		m := int64(1 + rapid.IntRange(0, 14).Draw(t, "unreduced.m"))
+		v := new(big.Int).Add(bytesToBig(ek, true), new(big.Int).Mul(gi.Order, big.NewInt(m)))
+		if v.BitLen() <= 256 {
+			ub := bigToBytes(v, 32, true)
+			kU, twin := g.Scalar(), g.Scalar()
+			if kU.UnmarshalBinary(ub) == nil && twin.UnmarshalBinary(ub) == nil && kU.Equal(twin) {
+				for _, shape := range []string{"fresh", "r=a", "base"} {
+					var got kyber.Point
+					switch shape {
+					case "fresh":
+						got = g.Point().Mul(kU, mkP(ea))
+					case "r=a":
+						a := mkP(ea)
+						got = a.Mul(kU, a)
+					default:
+						if !gi.MulNil {
+							continue
+						}
+						got = g.Point().Mul(kU, nil)
+					}
+					desc := fmt.Sprintf("%s Mul[%s] with the scalar decoded from the unreduced encoding %x", gi.Name, shape, ub)
+					ev.Case(true, desc, "table:Mul/unreduced-scalar", "group:"+gi.Name)
+					_ = got
+					if !kU.Equal(twin) || !twin.Equal(kU) {
+						violationOrKnown(t, ev, "C05/"+gi.Name+"/Mul", "%s: the scalar operand is no longer Equal to a twin decoded from the same bytes", desc)
+						kU = g.Scalar()
+						_ = kU.UnmarshalBinary(ub)
+					}
+				}
+			}
 		}
 	}
 	// nullary receiver ops
